@@ -446,10 +446,11 @@ class Bin(Factory, Container):
             and np.all(np.isfinite(q))
             and np.all(np.isfinite(weights))
         ):
-            # Numpy defines histograms as including the upper edge of the last bin only, so drop that
-            weights[q == self.high] = 0.0
-
-            h, _ = np.histogram(q, self.num, (self.low, self.high), weights=weights)
+            # bin with the same expression as bin() and the generic path below (np.histogram's edges differ
+            # from it by rounding, and it includes the upper edge of the last bin)
+            inrange = (q >= self.low) & (q < self.high)
+            index = np.floor(self.num * (q[inrange] - self.low) / (self.high - self.low)).astype(int)
+            h = np.bincount(np.minimum(index, self.num - 1), weights=weights[inrange], minlength=self.num)
 
             for hi, value in zip(h, self.values):
                 value.fill(None, float(hi))
